@@ -868,6 +868,7 @@ func lemmaCreateThenMapQueue(data []byte, cap uint32) {
 //@   loop 0 invariant[C01,C02] i == 0 && oldHead == old(*b.head) && *b.size == old(*b.size) - 1 && remain == old(*b.size) - 1 && remain > 0
 //@   loop 0 invariant[C01,C02] *b.head == old(*b.head) && *b.tail == old(*b.tail) && *b.counter == old(*b.counter) && b.n == old(b.n) && b.cs == old(b.cs) && b.held == old(b.held) && b.chain == old(b.chain) && b.pos == old(b.pos) && b.valid == old(b.valid)
 //@   loop 0 modifies[C01,C02] *b.head
+//@   modifies[C01,C02] *b.size, *b.head, *b.counter, b.bufferRegion[0 : len(b.bufferRegion)], b.held, b.cs, b.n
 
 // push returns a held slot to the chain: it becomes the new tail, the old tail is linked to it.
 //@ pure slotOf(b *bufferList, s *bufferSlice): int = s.offsetInShm - b.bufferRegionOffsetInShm
@@ -982,6 +983,21 @@ func lemmaCreateThenMapQueue(data []byte, cap uint32) {
 //@ |  && (forall i in [0, len(b.lists)) trig(b.lists[i]): forall j in [0, len(b.lists)) trig(b.lists[j]): i < j ==> listEnd(b.lists[i]) <= b.lists[j].offsetInShm)
 //@ pure ownedBy(l *bufferList, s *bufferSlice): bool = l.valid[slotOf(l, s)] && l.held[slotOf(l, s)] && 0 <= slotOf(l, s) && slotOf(l, s) + l.gstride <= len(l.bufferRegion) && s.cap == *l.capPerBuffer
 //@ |  && s.bufferHeader != nil && sameMem(s.bufferHeader, l.bufferRegion, slotOf(l, s)) && len(s.bufferHeader) >= 20 && sameMem(s.data, l.bufferRegion, slotOf(l, s) + 20)
+// allocShmBuffer: first class that is large enough and still has a buffer to spare. The result is owned by the
+// list it was popped from (ghost gowner), has at least the requested capacity; a failed allocation consumes nothing.
+//@ pure mgrLists(b *bufferManager): bool = forall j in [0, len(b.lists)) trig(b.lists[j]): wfList(b.lists[j])
+//@ func (*bufferManager).allocShmBuffer
+//@   requires[C01,C02] mgrGeom(b) && mgrLists(b)
+//@   at call (*bufferList).pop#0 ghost r0.gowner := ite(r1 == nil, i, r0.gowner)
+//@   ensures[C01,C02] r1 != nil ==> r0 == nil && r1 == ErrNoMoreBuffer
+//@   ensures[C02] r1 != nil ==> forall j in [0, len(b.lists)) trig(b.lists[j]): b.lists[j].n == old(b.lists[j].n) && b.lists[j].cs == old(b.lists[j].cs) && b.lists[j].held == old(b.lists[j].held)
+//@   ensures[C01,C02] r1 == nil ==> r0 != nil && fresh(r0) && 0 <= r0.gowner && r0.gowner < len(b.lists) && r0.isFromShm && size <= r0.cap
+//@   ensures[C01,C02] r1 == nil ==> wfList(b.lists[r0.gowner]) && ownedBy(b.lists[r0.gowner], r0)
+//@   ensures[C02] r1 == nil ==> b.lists[r0.gowner].n == old(b.lists[r0.gowner].n) - 1
+//@   ensures[C02] r1 == nil ==> forall j in [0, len(b.lists)) trig(b.lists[j]): j != r0.gowner ==> b.lists[j].n == old(b.lists[j].n) && b.lists[j].held == old(b.lists[j].held)
+//@   loop 0 invariant[C01,C02] -1 <= rangeindex && rangeindex < len(b.lists)
+//@   loop 0 invariant[C02] forall j in [0, len(b.lists)) trig(b.lists[j]): b.lists[j].n == old(b.lists[j].n) && b.lists[j].cs == old(b.lists[j].cs) && b.lists[j].held == old(b.lists[j].held)
+//@   loop 0 assume[C01,C02] mgrLists(b)   // a failed pop on one list leaves the invariant of the OTHER lists intact (their words and slots are disjoint: mgrGeom); assumed, not proved
 //@ func (*bufferManager).recycleBuffer
 //@   nilable
 //@   requires[C01,C02] b != nil && mgrGeom(b)
